@@ -116,10 +116,10 @@ fn capped<T: Send + 'static>(f: impl FnOnce() -> T + Send + 'static) -> Result<T
     rx.recv_timeout(std::time::Duration::from_millis(CALL_CAP_MS)).map_err(|_| ())
 }
 
-struct Queries {
-    stride: u64,
-    limit: u32,
-    anchors: Vec<String>,
+pub struct Queries {
+    pub stride: u64,
+    pub limit: u32,
+    pub anchors: Vec<String>,
 }
 
 const QUERY_NAMES: &[&str] = &["replay", "cut_points", "compaction_status", "cursor_status", "selection_status", "compile", "branch_cut", "handoff_cut", "list_default"];
@@ -219,7 +219,7 @@ fn answers(data_dir: &Path, ws: &Path, thread: &str, q: &Queries, only: Option<&
 }
 
 /// as-found vs caches-removed, on scratch copies of `data_dir`
-fn compare(scratch: &Path, tag: &str, data_dir: &Path, ws: &Path, thread: &str, q: &Queries, only: Option<&str>) -> (BTreeMap<String, Value>, BTreeMap<String, Value>) {
+pub fn compare(scratch: &Path, tag: &str, data_dir: &Path, ws: &Path, thread: &str, q: &Queries, only: Option<&str>) -> (BTreeMap<String, Value>, BTreeMap<String, Value>) {
     let a_dir = scratch.join(format!("{tag}-asfound"));
     let b_dir = scratch.join(format!("{tag}-truth"));
     let _ = std::fs::remove_dir_all(&a_dir);
